@@ -7,7 +7,7 @@ From DS Require Import Base.Prelude Base.Bits Model.Utils Model.UsdModel Spec.Us
 Definition outcome_eqb (a b : outcome) : bool :=
   match a, b with
   | OReply x, OReply y => zlist_eqb x y
-  | OValueError, OValueError | OException, OException | OBlock, OBlock => true
+  | OValueError, OValueError | OException, OException | OBlock, OBlock | OSilent, OSilent => true
   | _, _ => false
   end.
 
@@ -44,3 +44,34 @@ Definition show (c : usd_case) :=
   let '(idx, clk, h, os) := c in first_diff step 0 (usd_init idx, clk) h os.
 Definition show_spec (c : usd_case) :=
   let '(idx, clk, h, os) := c in first_diff spec_step 0 (usd_init idx, clk) h os.
+
+(* lines of several units: per event the reply and the snapshots of ALL units *)
+Definition lobs := (option outcome * list usd)%type.
+Definition line_case := (list Z * Z * list levent * list lobs)%type.
+
+Section LCheck.
+  Variable stepf : lstate -> levent -> lstate * option outcome.
+  Fixpoint lcheck (s : lstate) (h : list levent) (os : list lobs) : bool :=
+    match h, os with
+    | [], [] => true
+    | e :: h', (o, snaps) :: os' =>
+        let '(s1, o1) := stepf s e in
+        option_eqb outcome_eqb o1 o && list_eqb usd_eqb (fst s1) snaps && lcheck s1 h' os'
+    | _, _ => false
+    end.
+  Fixpoint lfirst_diff (i : nat) (s : lstate) (h : list levent) (os : list lobs)
+    : option (nat * option outcome * list usd) :=
+    match h, os with
+    | e :: h', (o, snaps) :: os' =>
+        let '(s1, o1) := stepf s e in
+        if option_eqb outcome_eqb o1 o && list_eqb usd_eqb (fst s1) snaps
+        then lfirst_diff (S i) s1 h' os' else Some (i, o1, fst s1)
+    | _, _ => None
+    end.
+End LCheck.
+
+Definition lok (c : line_case) : bool :=
+  let '(idxs, clk, h, os) := c in
+  lcheck lstep (map usd_init idxs, clk) h os && lcheck spec_lstep (map usd_init idxs, clk) h os.
+Definition lshow (c : line_case) :=
+  let '(idxs, clk, h, os) := c in lfirst_diff spec_lstep 0 (map usd_init idxs, clk) h os.
